@@ -16,10 +16,12 @@ ALPHA = [E.DRAIN, E.TURN, E.TIMER, E.START, E.FINISH, E.DISCONNECT, E.FORCE, E.C
 ALPHA_Q = [E.DRAIN, E.TURN, E.TIMER, E.FINISH, E.DISCONNECT, E.FORCE, E.CANCEL, E.CONNECT_OK, E.CONNECT_ERR,
            E.D_HELLO, E.D_CONNECT, E.D_GARBAGE, E.D_DISCREQ, E.D_MSG, E.D_BADPAYLOAD, E.EOF, E.RESET,
            E.WRITEFAIL, E.D_PINGREQ, E.REQUEST]
+ALPHA_FULL = ALPHA
 if shard_int("QA", 0):
     ALPHA = ALPHA_Q
 NA = len(ALPHA)
 SH0 = shard_int("SH0", 0)
+SH1 = shard_int("SH1", -1)  # thorough tier: the second event is fixed per shard as well
 STAGE = shard_int("STAGE", 0)
 NOISE = shard_int("NOISE", 0)  # 1: encrypted transport (the scenario starts with finish_connection parked on the noise handshake)
 NEEDS_NOISE_PATCHES = True
@@ -89,15 +91,20 @@ def h08_4(a0: int, a1: int, a2: int, a3: int) -> bool:
     """
     pre: a0 == SH0
     pre: 0 <= a1 < NA and 0 <= a2 < NA and 0 <= a3 < NA
+    pre: SH1 < 0 or a1 == SH1
     post: _
     """
     return _run([a0, a1, a2, a3])
 
 
+def _mk(stage: int, noise: int):
+    return lambda: Scenario(stage, world_kw={"noise_psk": PSK} if noise else None)
+
+
 def _enabled_first(stage: int, noise: int = 0, alpha=None) -> list:
     out = []
-    for i, ev in enumerate(alpha or ALPHA):
-        s = Scenario(stage, world_kw={"noise_psk": PSK} if noise else None)
+    for i, ev in enumerate(alpha or ALPHA_FULL):
+        s = _mk(stage, noise)()
         try:
             if s.apply(ev):
                 out.append(i)
@@ -109,17 +116,22 @@ def _enabled_first(stage: int, noise: int = 0, alpha=None) -> list:
 def shards(tier: str) -> list:
     out = []
     stages = [E.ST_RESOLVING, E.ST_CONNECTING, E.ST_OPENED, E.ST_HELLO_SENT, E.ST_CONNECTED, E.ST_DISCONNECTING]
-    fn = "h08_3" if tier == "quick" else "h08_4"
+    quick = tier == "quick"
+    alpha = ALPHA_Q if quick else ALPHA_FULL
     for st, nz in [(x, 0) for x in stages] + [(E.ST_HELLO_SENT, 1)]:
-        alpha = ALPHA_Q if tier == "quick" else None
         for i in _enabled_first(st, nz, alpha):
-            out.append({"fn": fn, "env": {"STAGE": st, "SH0": i, "NOISE": nz, "QA": 1 if tier == "quick" else 0}, "cond_timeout": 600 if tier == "quick" else 2400, "path_timeout": 60,
-                        "desc": f"stage {E.STAGE_NAMES[st]}{' (noise: handshake pending)' if nz else ''}, first event {E.NAMES[(alpha or ALPHA)[i]]}, then {2 if tier == 'quick' else 3} symbolic events; audit after the close"})
+            out.append({"fn": "h08_3", "env": {"STAGE": st, "SH0": i, "NOISE": nz, "QA": 1 if quick else 0}, "cond_timeout": 600 if quick else 1500, "path_timeout": 60,
+                        "desc": f"stage {E.STAGE_NAMES[st]}{' (noise: handshake pending)' if nz else ''}, first event {E.NAMES[alpha[i]]}, then 2 symbolic events ({len(alpha)}-event alphabet); audit after the close"})
+    if not quick:
+        for st, nz in [(E.ST_CONNECTING, 0), (E.ST_HELLO_SENT, 0), (E.ST_CONNECTED, 0), (E.ST_DISCONNECTING, 0)]:
+            for i, j in E.enabled_pairs(_mk(st, nz), ALPHA_Q):
+                out.append({"fn": "h08_4", "env": {"STAGE": st, "SH0": i, "SH1": j, "NOISE": nz, "QA": 1}, "cond_timeout": 1500, "path_timeout": 60,
+                            "desc": f"stage {E.STAGE_NAMES[st]}, events {E.NAMES[ALPHA_Q[i]]}, {E.NAMES[ALPHA_Q[j]]}, then 2 symbolic events (20-event alphabet); audit after the close"})
     return out
 
 
 BOUNDS = {"quick": "6 lifecycle stages (resolving, connecting, socket opened, hello sent, connected, disconnecting) x 3 events from a 20-event alphabet (thorough: 25 events), incl. trailing device frames in the closing chunk and same-turn combinations",
-          "thorough": "same with 4 events"}
+          "thorough": "3 events from the 25-event alphabet after every stage plus every sequence of 4 events from the 20-event alphabet after connecting, hello sent, connected, disconnecting"}
 OUTSIDE = ["sequences longer than the bound", "noise transport (frame-helper close on the noise path is covered by C04)"]
 ASSUMPTIONS = ["SimLoop/SimTransport/FakeSock model of asyncio and the socket (see C05)", "audit runs after the loop has gone quiet without advancing virtual time"]
 EXPLANATION = "C08: after any close: transports and sockets closed, no live timer, no pending API-call task, no write and no subscriber delivery with the connection in CLOSED."
